@@ -52,6 +52,7 @@ Fixpoint model_spec_run (fl : cflags) (k : cat) (ops : list sop) : bool :=
   | SOp o :: ops' => model_spec_run fl (apply_cop fl k o) ops'
   | SPair n ents b _ _ :: ops' => model_spec_run fl (do_pair fl k n ents b) ops'
   | SPairC n ents b _ _ :: ops' => model_spec_run fl (do_pairc fl k n ents b) ops'
+  | SPubM l :: ops' => model_spec_run fl (do_setpubm fl k l) ops'
   | SDetails names _ :: ops' => snap_spec (predict k names) && model_spec_run fl k ops'
   end.
 
@@ -60,11 +61,12 @@ Lemma agree_run_transfers fl : forall ops k,
   forallb (fun o => match o with SDetails _ obs => snap_spec obs | _ => true end) ops = model_spec_run fl k ops.
 Proof.
   induction ops as [|o ops IH]; intros k H; [reflexivity|].
-  destruct o as [o|n ents b r bl|n ents b r bl|names obs]; cbn [agree_run forallb model_spec_run] in *.
+  destruct o as [o|n ents b r bl|n ents b r bl|l|names obs]; cbn [agree_run forallb model_spec_run] in *.
   - now apply IH.
   - destruct (pair_flags fl k n ents b) as [r' bl']. rewrite !andb_true_iff in H. destruct H as [_ H].
     cbn [andb]. now apply IH.
   - rewrite !andb_true_iff in H. destruct H as [_ H]. cbn [andb]. now apply IH.
+  - now apply IH.
   - rewrite andb_true_iff in H. destruct H as [He H]. apply snapshot_eqb_eq in He. subst obs.
     f_equal. now apply IH.
 Qed.
